@@ -343,7 +343,7 @@ Lemma update_step_facts c s m k name now :
   InvR s' /\ chan s' = chan s /\
   (exists hk, hlookup k (hosts s') = Some hk /\ h_online hk = true /\ h_mac hk = m /\
      h_dirty hk = (match hlookup k (hosts s) with Some h => if h_mac h =? m then h_dirty h else true | None => true end) || chg || negb cur /\
-     h_names hk = if chg then nset KDhcp name base else base) /\
+     h_names hk = if chg then nset KDhcp (fst (merge (n_dhcp base) name)) base else base) /\
   (forall k', k' <> k -> hlookup k' (hosts s') = option_map supersede (hlookup k' (hosts s)) \/
                          hlookup k' (hosts s') = hlookup k' (hosts s)) /\
   (forall x, abs s' x = sight m k now (abs s) x) /\
@@ -378,10 +378,10 @@ Proof.
   set (chg := snd (merge (n_dhcp base) name)).
   (* update_name on s0 *)
   set (s1 := update_name KDhcp k name s0) in *.
-  set (h1 := if chg then set_dirty true (set_hnames (nset KDhcp name (h_names h0)) h0) else h0).
+  set (h1 := if chg then set_dirty true (set_hnames (nset KDhcp (fst (merge (n_dhcp base) name)) (h_names h0)) h0) else h0).
   assert (L1 : forall x, hlookup x (hosts s1) = if ip_eqb k x then Some h1 else hlookup x (hosts s0)).
   { intros x. unfold s1, update_name. rewrite L0. cbn [nget]. rewrite N0.
-    unfold h1, chg. unfold merge. destruct (negb (name =? 0) && negb (n_dhcp base =? name)); cbn [snd fst].
+    unfold h1, chg. destruct (merge (n_dhcp base) name) as [nm [|]]; cbn [snd fst].
     - cbn [hosts upd_mac set_macs upd_host set_hosts]. rewrite hlookup_hupd. destruct (ip_eqb k x) eqn:E; auto.
       ipeq. subst x. rewrite L0. cbn [option_map]. rewrite N0. reflexivity.
     - destruct (ip_eqb k x) eqn:E; auto. ipeq. subst x. exact L0. }
@@ -461,9 +461,9 @@ Qed.
 Inductive dunit : Set :=
 | DFrame (f : fsum) (now : Z)            (* Parse; Notify *)
 | DPurge (now : Z) (order : list ip)
-| DName (kd : nkind) (k : ip) (name : N) (* one of the five Update*Name methods on FindIP(k) *)
-| DUpdate (m : mac) (k : ip) (name : N) (now : Z)   (* DHCPv4Update *)
-| DOffer (m : mac) (k : ip) (name : N)              (* SetDHCPv4IPOffer *)
+| DName (kd : nkind) (k : ip) (name : nent) (* one of the five Update*Name methods on FindIP(k) *)
+| DUpdate (m : mac) (k : ip) (name : nent) (now : Z)   (* DHCPv4Update *)
+| DOffer (m : mac) (k : ip) (name : nent)              (* SetDHCPv4IPOffer *)
 | DCapture (m : mac)
 | DRelease (m : mac).
 
@@ -884,6 +884,32 @@ Proof.
   - apply (J_off s r Js).
 Qed.
 
+(* the model's Merge and the reference's [learn]/[learns] agree *)
+Lemma merge1_pick o n : merge1 o n = (pick o n, negb (pick o n =? o)).
+Proof.
+  unfold merge1, pick. destruct (N.eqb_spec n 0) as [->|N0]; cbn [negb andb].
+  - rewrite N.eqb_refl. reflexivity.
+  - destruct (N.eqb_spec o n) as [->|ON]; cbn [negb].
+    + rewrite N.eqb_refl. reflexivity.
+    + rewrite (proj2 (N.eqb_neq n o)) by congruence. reflexivity.
+Qed.
+
+Lemma merge_learn old new : merge old new = (learn old new, learns old new).
+Proof.
+  unfold merge, learns, nent_eqb, learn. rewrite !merge1_pick. cbn [ne_name ne_model ne_os ne_manuf].
+  f_equal.
+  destruct (pick (ne_name old) (ne_name new) =? ne_name old), (pick (ne_model old) (ne_model new) =? ne_model old),
+           (pick (ne_os old) (ne_os new) =? ne_os old), (pick (ne_manuf old) (ne_manuf new) =? ne_manuf old); reflexivity.
+Qed.
+
+(* an identical repeat teaches nothing, whatever the attributes *)
+Lemma learn_idem old new : learns (learn old new) new = false /\ learn (learn old new) new = learn old new.
+Proof.
+  assert (P : forall o n, pick (pick o n) n = pick o n) by (intros o n; unfold pick; destruct (n =? 0); reflexivity).
+  assert (E : learn (learn old new) new = learn old new) by (unfold learn; cbn [ne_name ne_model ne_os ne_manuf]; rewrite !P; reflexivity).
+  split; [|exact E]. unfold learns. rewrite E. unfold nent_eqb. rewrite !N.eqb_refl. reflexivity.
+Qed.
+
 (* a name update *)
 Lemma name_unit c s r kd k name :
   J s r ->
@@ -895,7 +921,7 @@ Proof.
   assert (NC : name_changes r kd k name =
                match hlookup k (hosts s) with Some h => snd (merge (nget kd (h_names h)) name) | None => false end).
   { unfold name_changes. rewrite <- B. unfold abs. destruct (hlookup k (hosts s)) as [h|] eqn:L; simpl; auto.
-    rewrite (G k h L). reflexivity. }
+    rewrite (G k h L), merge_learn. reflexivity. }
   cbn [rnext]. rewrite NC.
   assert (COMMON : InvR (set_chan [] (update_name kd k name s)) /\
                    (forall m, eoffer (set_chan [] (update_name kd k name s)) m = eoffer s m) /\
@@ -906,7 +932,8 @@ Proof.
     - intros x. apply (abs_update_name kd k name s x). }
   destruct COMMON as (IR & EO & AB).
   unfold update_name in *. destruct (hlookup k (hosts s)) as [h|] eqn:L.
-  - unfold merge in *. destruct (negb (name =? 0) && negb (nget kd (h_names h) =? name)) eqn:MOD; cbn [snd fst] in *.
+  - rewrite (merge_learn (nget kd (h_names h)) name) in *. rewrite <- (G k h L).
+    destruct (learns (nget kd (h_names h)) name) eqn:MOD; cbn [snd fst] in *.
     + constructor; auto.
       * intros x. rewrite AB. apply B.
       * intros m. rewrite EO. apply D.
@@ -969,7 +996,7 @@ Proof.
   { unfold upd_base. rewrite CRE. destruct (hlookup k (hosts s)) as [h|] eqn:L; [|reflexivity].
     destruct (h_mac h =? m); cbn [negb]; [symmetry; apply (G k h L)|reflexivity]. }
   assert (CHG : upd_changed r m k name = snd (merge (n_dhcp (match hlookup k (hosts s) with Some h => if h_mac h =? m then h_names h else names0 | None => names0 end)) name)).
-  { unfold upd_changed. rewrite BASE. reflexivity. }
+  { unfold upd_changed. rewrite BASE, merge_learn. reflexivity. }
   assert (AB1 : forall x, abs s' x = sight m k now (r_map r) x) by (intros x; rewrite AB; apply sight_ext; exact B).
   assert (FLE : forall x, flipb (abs s) (abs s') x = flipb (r_map r) (sight m k now (r_map r)) x).
   { intros x. apply flipb_ext; [apply B|apply AB1]. }
@@ -1025,7 +1052,7 @@ Proof.
       * cbn [andb orb]. apply (F x hx Lx).
   - (* names *)
     intros x hx Lx. cbn [hosts set_chan] in Lx. destruct (ip_eqb x k) eqn:EX.
-    + ipeq. subst x. rewrite Lk in Lx. inversion Lx; subst hx. rewrite Nk, CHG, BASE. reflexivity.
+    + ipeq. subst x. rewrite Lk in Lx. inversion Lx; subst hx. rewrite Nk, CHG, BASE, !merge_learn. reflexivity.
     + ipeq. rewrite REC in Lx by auto. destruct (flipb (abs s) (abs s') x).
       * destruct (hlookup x (hosts s)) as [h0|] eqn:L0; [|discriminate]. simpl in Lx. inversion Lx; subst.
         unfold supersede. destruct (h_online h0); apply (G x h0 L0).
@@ -1539,20 +1566,26 @@ Proof.
     apply existsb_exists in CO. destruct CO as (x & Ix & E). apply ip_eqb_eq in E. subst. exact Ix.
 Qed.
 
+Definition ex_ent : nent := {| ne_name := 5; ne_model := 0; ne_os := 6; ne_manuf := 7 |}.
 Definition ex_units : list dunit :=
   [ DFrame {| f_src := ex_mac1; f_class := FIP4; f_ip := IP4 3232235521; f_arpmac := 0; f_dhcp4 := false |} 10;
     DFrame {| f_src := ex_mac1; f_class := FIP4; f_ip := IP4 3232235521; f_arpmac := 0; f_dhcp4 := false |} 11;   (* repeat traffic *)
     DFrame {| f_src := ex_mac1; f_class := FIP4; f_ip := IP4 3232235522; f_arpmac := 0; f_dhcp4 := false |} 20;   (* IP change *)
     DFrame {| f_src := ex_mac2; f_class := FIP4; f_ip := IP4 3232235522; f_arpmac := 0; f_dhcp4 := false |} 30;   (* re-binding *)
     DCapture ex_mac1;
-    DName KMdns (IP4 3232235522) 5;                                                                                  (* a learned name *)
+    DName KMdns (IP4 3232235522) ex_ent;                                                                             (* a learned name: Name, OS and Manufacturer at once *)
+    DName KMdns (IP4 3232235522) ex_ent;                                                                             (* the same announcement again *)
     DFrame {| f_src := ex_mac2; f_class := FIP4; f_ip := IP4 3232235522; f_arpmac := 0; f_dhcp4 := false |} 31;   (* delivered with repeat traffic *)
+    DName KMdns (IP4 3232235522) ex_ent;                                                                             (* an identical repeat after delivery: nothing owed *)
+    DFrame {| f_src := ex_mac2; f_class := FIP4; f_ip := IP4 3232235522; f_arpmac := 0; f_dhcp4 := false |} 32;   (* quiet *)
+    DName KMdns (IP4 3232235522) {| ne_name := 0; ne_model := 4; ne_os := 6; ne_manuf := 0 |};                       (* Model learned, OS unchanged, the rest not announced *)
+    DFrame {| f_src := ex_mac2; f_class := FIP4; f_ip := IP4 3232235522; f_arpmac := 0; f_dhcp4 := false |} 33;   (* delivered *)
     DPurge 400 [IP4 3232235521; IP4 3232235522; IP4 3232235531; IP4 3232235649];
     DFrame {| f_src := 439804651110; f_class := FIP6; f_ip := IP6 338288524927261089654018896841347694593; f_arpmac := 0; f_dhcp4 := false |} 410;
     (* a DHCP exchange of an announced, online client that was renamed: offer, update, Notify through the DHCP path *)
     DFrame {| f_src := ex_mac1; f_class := FIP4; f_ip := IP4 3232235523; f_arpmac := 0; f_dhcp4 := false |} 420;
-    DOffer ex_mac1 (IP4 3232235523) 9;
-    DUpdate ex_mac1 (IP4 3232235523) 9 421;
+    DOffer ex_mac1 (IP4 3232235523) ex_ent;
+    DUpdate ex_mac1 (IP4 3232235523) ex_ent 421;
     DFrame {| f_src := ex_mac1; f_class := FIP4; f_ip := IP4 0; f_arpmac := 0; f_dhcp4 := true |} 422;
     DFrame {| f_src := ex_mac1; f_class := FIP4; f_ip := IP4 3232235523; f_arpmac := 0; f_dhcp4 := false |} 423 ].
 
@@ -1573,6 +1606,11 @@ Lemma ex_units_emissions :
     [(IP4 3232235522, true)];
     [];
     [];
+    [];
+    [(IP4 3232235522, true)];
+    [];
+    [];
+    [];
     [(IP4 3232235522, true)];
     [(IP4 3232235522, false); (IP4 3232235531, false)];
     [(IP6 338288524927261089654018896841347694593, true)];
@@ -1588,10 +1626,10 @@ Proof. vm_compute. reflexivity. Qed.
 Lemma ex_llmnr_asymmetry :
   let s := run std_cfg ex_s0
       [ ex_rx4 ex_mac1 3232235521 10; Notify; Drain;
-        NameUpdate KLlmnr (IP4 3232235521) 7; NameUpdate KMdns (IP4 3232235521) 8;
+        NameUpdate KLlmnr (IP4 3232235521) (named 7); NameUpdate KMdns (IP4 3232235521) ex_ent;
         ex_rx4 ex_mac1 3232235522 20; Notify ] in
   map (fun n => (nt_ip n, n_llmnr (nt_names n), n_mdns (nt_names n))) (chan s) =
-  [ (IP4 3232235521, 7, 8); (IP4 3232235522, 0, 8) ].
+  [ (IP4 3232235521, named 7, ex_ent); (IP4 3232235522, nent0, ex_ent) ].
 Proof. vm_compute. reflexivity. Qed.
 
 (* ------------------------------------------------------------------ *)
@@ -1619,4 +1657,58 @@ Proof.
     + rewrite orb_true_r. cbn [existsb]. rewrite ip_eqb_refl. reflexivity.
     + unfold upd_base in H. destruct (created (r_map r) m k) eqn:CR; [|exfalso; apply H; reflexivity].
       rewrite (created_not_current _ _ _ CR). cbn [negb orb existsb]. rewrite ip_eqb_refl. reflexivity.
+Qed.
+
+(* ------------------------------------------------------------------ *)
+(* an identical repeat of an announcement is quiet: it changes nothing in the reference, whatever attributes the
+   entry carries and however many of them the first announcement changed *)
+Lemma nget_nset kd v n : nget kd (nset kd v n) = v.
+Proof. destruct kd; reflexivity. Qed.
+
+Theorem name_repeat_quiet c r kd k e :
+  let r1 := rnext c r (UName kd k e) in
+  name_changes r1 kd k e = false /\ rnext c r1 (UName kd k e) = r1 /\ forall x, due c r1 (UName kd k e) x = [].
+Proof.
+  cbn zeta.
+  assert (Q : name_changes (rnext c r (UName kd k e)) kd k e = false).
+  { cbn [rnext]. destruct (name_changes r kd k e) eqn:NC; [|exact NC].
+    unfold name_changes in *. cbn [r_map r_names]. destruct (r_map r k); [|discriminate].
+    rewrite ip_eqb_refl, nget_nset. apply learn_idem. }
+  split; [exact Q|]. split; [|intros x; reflexivity].
+  set (r1 := rnext c r (UName kd k e)) in *. cbn [rnext]. rewrite Q. reflexivity.
+Qed.
+
+Lemma filter_none {A} (f : A -> bool) l : (forall x, f x = false) -> filter f l = [].
+Proof. intros H. induction l as [|x l IH]; simpl; [reflexivity|]. rewrite H. exact IH. Qed.
+
+Theorem update_repeat_quiet c r m k e now now' :
+  is_valid k && negb (is_unspecified k) = true ->
+  let r1 := rnext c r (UUpdate m k e now) in
+  upd_changed r1 m k e = false /\ r_owed (rnext c r1 (UUpdate m k e now')) = r_owed r1 /\
+  forall x, r_names (rnext c r1 (UUpdate m k e now')) x = r_names r1 x.
+Proof.
+  intros V. cbn zeta.
+  set (r1 := rnext c r (UUpdate m k e now)).
+  assert (M1 : r_map r1 = sight m k now (r_map r)) by (unfold r1; cbn [rnext]; rewrite V; reflexivity).
+  assert (CUR : currentb (r_map r1) m k = true).
+  { unfold currentb. rewrite M1. unfold sight. rewrite ip_eqb_refl. cbn [a_mac a_online]. rewrite N.eqb_refl. reflexivity. }
+  assert (CRE : created (r_map r1) m k = false).
+  { unfold created. rewrite M1. unfold sight. rewrite ip_eqb_refl. cbn [a_mac]. rewrite N.eqb_refl. reflexivity. }
+  assert (NK : n_dhcp (r_names r1 k) = learn (n_dhcp (upd_base r m k)) e).
+  { unfold r1. cbn [rnext]. rewrite V. cbn [r_names]. rewrite ip_eqb_refl.
+    destruct (upd_changed r m k e) eqn:CH; [reflexivity|].
+    unfold upd_changed, learns in CH. apply negb_false_iff in CH. unfold nent_eqb in CH.
+    repeat (apply andb_prop in CH; destruct CH as [CH ?]).
+    destruct (learn (n_dhcp (upd_base r m k)) e) as [a1 a2 a3 a4], (n_dhcp (upd_base r m k)) as [b1 b2 b3 b4].
+    cbn [ne_name ne_model ne_os ne_manuf] in *.
+    repeat match goal with H : (_ =? _) = true |- _ => apply N.eqb_eq in H end. subst. reflexivity. }
+  assert (Q : upd_changed r1 m k e = false).
+  { unfold upd_changed, upd_base. rewrite CRE, NK. apply learn_idem. }
+  split; [exact Q|].
+  cbn [rnext]. rewrite V. cbn [r_owed r_names]. rewrite Q, CUR. cbn [negb orb app].
+  split.
+  - rewrite filter_none; [reflexivity|]. intros x. destruct (ip_eqb x k) eqn:EX; [reflexivity|]. cbn [negb andb].
+    unfold flipb, sight. rewrite EX. fold (currentb (r_map r1) m k). rewrite CUR. cbn [negb andb].
+    destruct (r_map r1 x) as [ex|]; [|reflexivity]. destruct (a_online ex); reflexivity.
+  - intros x. destruct (ip_eqb x k) eqn:EX; [|reflexivity]. ipeq. subst x. unfold upd_base. rewrite CRE. reflexivity.
 Qed.
